@@ -101,7 +101,14 @@ def step (s : St) (j : Json) : R (St × Json) := do
       | some r => pure r
       | none => throw s!"unknown record handle {n}")
     let isB ← (← j.getObjVal? "bundle").getBool?
-    let (h1, c) := s.h.allocCont (!isB) none [] none
+    -- `ProvBundle(records=…, identifier=q)`: the identifier object is stored as given
+    let ident : Option QName ← match j.getObjVal? "id" with
+      | .ok jid => do
+        match ← decNameArg jid with
+        | .qn q => pure (some q)
+        | _ => pure none
+      | .error _ => pure none
+    let (h1, c) := s.h.allocCont (!isB) ident [] none
     match h1.addRecords c rs with
     | (h2, none) => return (← { s with h := h2 }.bindCont j c, errJson none)
     | (h2, some e) => return ({ s with h := h2 }, errJson (some e))
